@@ -159,7 +159,9 @@ fn check_node(sh: &Shared, d: &D, t: &Term) -> Check {
 }
 
 pub fn check(sh: &Shared, c: &Case) -> Check {
-    if !c.d.arity_ok() {
+    // the placeholder-only image (what `(/, _)` parses to) is admitted at the root, see small_scope()
+    let placeholder_only = c.d.k.is_image() && c.d.kids.is_empty() && c.d.n == 0;
+    if !c.d.arity_ok() && !placeholder_only {
         fail!("harness/bad-case", "description violates arity");
     }
     let t = if c.how == 0 { build_raw(&c.d) } else { build_ctor(&c.d) };
@@ -252,6 +254,13 @@ pub fn small_scope() -> Vec<Case> {
     for k in ALL_KINDS {
         if k.is_atom() {
             continue;
+        }
+        if k.is_image() {
+            // the placeholder-only image: `(/, _)` is accepted by both parsers and yields exactly this
+            // value, and C12 calls parser output well-formed — so the accessors must agree on it too
+            for how in 0..2 {
+                out.push(Case { d: D::image(k, 0, vec![]), how });
+            }
         }
         for len in 1..=4usize {
             let pool: Vec<D> = atoms.to_vec();
